@@ -31,7 +31,7 @@ type mutant struct {
 func main() {
 	repo := flag.String("repo", "/repo", "repository root")
 	out := flag.String("out", "", "output directory")
-	ops := flag.String("ops", "loopbreak,iffalse,iftrue,delcall,deldefer,delassign,cmpflip,delgo", "operators")
+	ops := flag.String("ops", "loopbreak,iffalse,iftrue,delif,delcall,deldefer,delassign,cmpflip,delgo", "operators")
 	flag.Parse()
 	want := map[string]bool{}
 	for _, o := range strings.Split(*ops, ",") {
@@ -91,6 +91,23 @@ func main() {
 				case *ast.RangeStmt:
 					add("loopbreak", x.Pos(), "break appended to the loop body", edit{off(x.Body.Rbrace), off(x.Body.Rbrace), "\nbreak\n"})
 				case *ast.IfStmt:
+					// the whole guard removed (only guards without else whose body leaves: return/continue/break/panic)
+					if x.Else == nil && x.Init == nil && len(x.Body.List) > 0 {
+						leaves := false
+						switch last := x.Body.List[len(x.Body.List)-1].(type) {
+						case *ast.ReturnStmt, *ast.BranchStmt:
+							leaves = true
+						case *ast.ExprStmt:
+							if call, ok := last.X.(*ast.CallExpr); ok {
+								if id, ok := call.Fun.(*ast.Ident); ok && id.Name == "panic" {
+									leaves = true
+								}
+							}
+						}
+						if leaves {
+							add("delif", x.Pos(), "guard removed: if "+text(x.Cond), edit{off(x.Pos()), off(x.End()), ""})
+						}
+					}
 					c := text(x.Cond)
 					add("iffalse", x.Pos(), "condition forced false: "+c, edit{off(x.Cond.Pos()), off(x.Cond.End()), "false && (" + c + ")"})
 					add("iftrue", x.Pos(), "condition forced true: "+c, edit{off(x.Cond.Pos()), off(x.Cond.End()), "true || (" + c + ")"})
